@@ -281,7 +281,14 @@ func (fs *factSet) callOrder(key, fn string) {
 				return false
 			case *ast.CallExpr:
 				t := fs.text(v.Fun)
-				if strings.HasPrefix(t, "p.") || strings.HasPrefix(t, "r.") || strings.HasPrefix(t, "c.") || t == "close" || strings.HasPrefix(t, "atomic.") {
+				if _, isLit := v.Fun.(*ast.FuncLit); isLit {
+					return true
+				}
+				plain := false
+				if id, ok := v.Fun.(*ast.Ident); ok && id.Obj == nil && !isBuiltinName(id.Name) {
+					plain = true // a package-level function such as openInputTTY or newRenderer
+				}
+				if plain || strings.HasPrefix(t, "p.") || strings.HasPrefix(t, "r.") || strings.HasPrefix(t, "c.") || t == "close" || strings.HasPrefix(t, "atomic.") {
 					arg := ""
 					if t == "p.shutdown" || t == "close" || t == "p.initCancelReader" || strings.HasPrefix(t, "atomic.") || t == "r.execute" {
 						as := make([]string, len(v.Args))
@@ -297,6 +304,96 @@ func (fs *factSet) callOrder(key, fn string) {
 		})
 	}
 	walk(fd.Body, "")
+}
+
+func isBuiltinName(n string) bool {
+	switch n {
+	case "len", "cap", "append", "make", "new", "panic", "recover", "copy", "delete", "string", "int", "byte", "rune", "error",
+		"Model", "Msg", "Cmd", "KeyMsg", "MouseMsg", "BatchMsg", "sequenceMsg", "QuitMsg", "float64", "uint32", "bool":
+		return true
+	}
+	return false
+}
+
+// ctxChecks: every place the program context is consulted (the guard points of
+// the termination protocol).
+func (fs *factSet) ctxChecks() {
+	for name, fd := range fs.funcs {
+		ast.Inspect(fd.Body, func(x ast.Node) bool {
+			if c, ok := x.(*ast.CallExpr); ok {
+				if s, ok := c.Fun.(*ast.SelectorExpr); ok && (s.Sel.Name == "Err" || s.Sel.Name == "Done") {
+					t := fs.text(s.X)
+					if strings.HasSuffix(t, "ctx") {
+						fs.add("ctxchecks", fmt.Sprintf("%s|%s.%s", name, t, s.Sel.Name))
+					}
+				}
+			}
+			return true
+		})
+	}
+}
+
+// eventLoopShape splits eventLoop into the pieces the models mirror: the
+// receive/filter head, one entry per case of the message type switch, and the
+// tail (renderer messages, Update, command hand-over, View).
+func (fs *factSet) eventLoopShape() {
+	fd, ok := fs.funcs["Program.eventLoop"]
+	if !ok {
+		fs.add("el.head", "missing")
+		return
+	}
+	var sel *ast.SelectStmt
+	ast.Inspect(fd.Body, func(x ast.Node) bool {
+		if s, ok := x.(*ast.SelectStmt); ok && sel == nil {
+			sel = s
+			return false
+		}
+		return true
+	})
+	if sel == nil {
+		fs.add("el.head", "no select")
+		return
+	}
+	for _, cl := range sel.Body.List {
+		cc := cl.(*ast.CommClause)
+		comm := "default"
+		if cc.Comm != nil {
+			comm = fs.text(cc.Comm)
+		}
+		if !strings.Contains(comm, "p.msgs") {
+			body := make([]string, len(cc.Body))
+			for i, st := range cc.Body {
+				body[i] = fs.text(st)
+			}
+			fs.add("el.head", "case "+comm+": "+strings.Join(body, "; "))
+			continue
+		}
+		fs.add("el.head", "case "+comm+":")
+		seenSwitch := false
+		for _, st := range cc.Body {
+			if ts, ok := st.(*ast.TypeSwitchStmt); ok && !seenSwitch {
+				seenSwitch = true
+				for _, c := range ts.Body.List {
+					cl := c.(*ast.CaseClause)
+					types := make([]string, len(cl.List))
+					for i, t := range cl.List {
+						types[i] = fs.text(t)
+					}
+					body := make([]string, len(cl.Body))
+					for i, b := range cl.Body {
+						body[i] = fs.text(b)
+					}
+					fs.add("el.case."+strings.Join(types, "_"), strings.Join(body, "; "))
+				}
+				continue
+			}
+			if seenSwitch {
+				fs.add("el.tail", fs.text(st))
+			} else {
+				fs.add("el.head", fs.text(st))
+			}
+		}
+	}
 }
 
 // smallBodies: the normalised text of small leaf functions whose exact shape
@@ -346,6 +443,8 @@ func collectFacts(dir string) (*factSet, error) {
 	fs.channelOps()
 	fs.callSites()
 	fs.goStmts()
+	fs.ctxChecks()
+	fs.eventLoopShape()
 	for _, fn := range []string{"Program.shutdown", "Program.restoreTerminalState", "Program.ReleaseTerminal", "Program.RestoreTerminal",
 		"Program.exec", "Program.Run", "Program.initTerminal", "Program.disableMouse", "Program.recoverFromPanic",
 		"standardRenderer.stop", "standardRenderer.kill", "standardRenderer.start", "standardRenderer.listen"} {
@@ -354,17 +453,25 @@ func collectFacts(dir string) (*factSet, error) {
 	fs.smallBodies("Every", "Tick", "Batch", "Sequence", "Program.Send", "Program.Quit", "Program.Kill", "Program.Wait",
 		"Program.Println", "Program.Printf", "newRenderer", "standardRenderer.write", "standardRenderer.repaint",
 		"Program.readLoop", "Program.waitForReadLoop", "Program.checkResize", "Program.listenForResize", "channelHandlers.shutdown",
-		"WithFilter", "WithFPS", "detectReportFocus")
+		"WithFilter", "WithFPS", "detectReportFocus", "Program.handleSignals", "Program.handleCommands", "Program.handleResize",
+		"Program.initCancelReader", "standardRenderer.listen", "standardRenderer.start", "standardRenderer.handleMessages")
 	fs.signature("Program.Run")
 	fs.bufSize()
 	return fs, nil
 }
 
-func genFacts() []byte {
+func factDefName(k string) string {
+	r := strings.NewReplacer(".", "_", " ", "_", "*", "", "-", "_")
+	return "fact_" + r.Replace(k)
+}
+
+func genFacts() []byte { return genFactsNS("Tea.Gen", "-- GENERATED by `harness gen` (go/ast fact extractor) from /repo's working tree. Do not edit.\n") }
+
+func genFactsNS(ns, header string) []byte {
 	fs, err := collectFacts(repoDir())
 	var b bytes.Buffer
-	b.WriteString("-- GENERATED by `harness gen` (go/ast fact extractor) from /repo's working tree. Do not edit.\n")
-	b.WriteString("namespace Tea.Gen\n\n")
+	b.WriteString(header)
+	fmt.Fprintf(&b, "namespace %s\n\n", ns)
 	if err != nil {
 		fmt.Fprintf(&b, "def factsError : String := %s\n", leanString(err.Error()))
 		fs = &factSet{lists: map[string][]string{}}
@@ -372,30 +479,37 @@ func genFacts() []byte {
 	keys := make([]string, 0, len(fs.lists))
 	for k := range fs.lists {
 		keys = append(keys, k)
-		if !strings.HasPrefix(k, "order.") {
+		if !strings.HasPrefix(k, "order.") && !strings.HasPrefix(k, "el.") {
 			sort.Strings(fs.lists[k]) // inventories are sets; call orders keep source order
 		}
 	}
 	sort.Strings(keys)
-	b.WriteString("def facts : List (String × List String) := [\n")
-	for i, k := range keys {
+	for _, k := range keys {
 		vals := fs.lists[k]
 		parts := make([]string, len(vals))
 		for j, v := range vals {
 			parts[j] = "    " + leanString(v)
 		}
-		sep := ","
-		if i == len(keys)-1 {
-			sep = ""
-		}
-		fmt.Fprintf(&b, "  (%s, [\n%s])%s\n", leanString(k), strings.Join(parts, ",\n"), sep)
+		fmt.Fprintf(&b, "def %s : List String := [\n%s]\n\n", factDefName(k), strings.Join(parts, ",\n"))
 	}
-	b.WriteString("]\n\nend Tea.Gen\n")
+	fmt.Fprintf(&b, "end %s\n", ns)
 	return b.Bytes()
 }
 
 func init() {
 	genExtra["Tea/Gen/Facts.lean"] = genFacts
+}
+
+// cmdFreezeFacts writes the frozen expectation Tea/Doc/Facts.lean from the tree
+// as it is now. Run by hand after a change of the code has been reviewed and
+// the models/theorems follow it; never by a check.
+func cmdFreezeFacts() int {
+	b := genFactsNS("Tea.Doc", "-- FROZEN expectation of the facts extracted from the source (written by `harness freeze-facts`\n-- after the models were brought in line with the code; kept by hand). The specification side of the bridge.\n")
+	if err := os.WriteFile(filepath.Join(verifDir(), "lean", "Tea", "Doc", "Facts.lean"), b, 0o644); err != nil {
+		fmt.Fprintln(os.Stderr, err)
+		return 1
+	}
+	return 0
 }
 
 // cmdFacts prints the facts (for inspection and for freezing the expectation).
